@@ -42,8 +42,9 @@ RULE = ('A model of a note extent (0..12 notes (sweep: up to 10 per extent, ever
         'header-only final note, or a property list with >=2 properties. Distinct by SHA-1 of the encoded file.')
 N = {'quick': 3000, 'thorough': 200000}
 ASSUMPTIONS = [
-    'note entries use 4-byte words and 4-byte padding in both ELF classes (sh_addralign/p_align = 4); the gABI-64 '
-    '8-byte variant and binutils\' p_align==8 variant are outside the property ("standard 4-byte padding")',
+    'note entries use 4-byte words and 4-byte padding in both ELF classes whatever the alignment fields of the section / segment '
+    'header say (sh_addralign / p_align drawn from 0, 1, 2, 4, 8, 16, 0x1000); extents actually *encoded* with the gABI-64 '
+    '8-byte words or with binutils\' 8-byte padding are outside the property ("the standard 4-byte padding")',
     'every note is well formed: n_namesz counts exactly one terminating NUL and the name has no embedded NUL; the last '
     'note is padded like the others, so the notes tile the extent exactly; no trailing filler after the last note',
     'GNU ABI tag descsz == 16; gold version string without NUL; every property (incl. the last) is padded to 4/8, '
@@ -277,6 +278,10 @@ def build_file(case):
         # a note extent need not start on a 4-byte file offset (sh_addralign 1: objcopy --add-section, hand-written assembly): the
         # padding of names and descriptors counts from the start of the extent, not from the start of the file
         carrier.update(sh_addralign=1, file_align=1)
+    if lay.get('walign') is not None:
+        # the alignment *fields* of the headers are header values like any other: names and descriptors are padded to 4 bytes
+        # whatever sh_addralign / p_align say (property text: "the standard 4-byte padding"), e.g. 8 or 16 on a 64-bit file
+        carrier['sh_addralign'] = lay['walign']
     decoy = {'name': '.data', 'sh_type': SHT_PROGBITS, 'sh_flags': 3, 'sh_addr': 0x600000, 'sh_addralign': 1,
              'data': bytes(lay.get('decoy', b'\x01\x02\x03'))}
     secs.append(decoy)
@@ -298,7 +303,8 @@ def build_file(case):
         gi = len(segs)
         segs.append({'p_type': PT_NOTE, 'p_flags': 4, 'p_offset': ['sec_off', ci, 0],
                      'p_vaddr': lay.get('p_vaddr', 0), 'p_paddr': lay.get('p_paddr', 0),
-                     'p_filesz': ['sec_size', ci, 0], 'p_memsz': lay.get('p_memsz', 0), 'p_align': 4})
+                     'p_filesz': ['sec_size', ci, 0], 'p_memsz': lay.get('p_memsz', 0),
+                     'p_align': 4 if lay.get('walign') is None else lay['walign']})
     payload_ids = [i for i, s in enumerate(secs) if s.get('data') is not None]
     others = [i for i in payload_ids if i != ci]
     if lay.get('at_end', False):
@@ -843,7 +849,8 @@ def gen_layout(ch, cls):
     return {'gap4': ch.choice([0, 0, 1, 2, 5]), 'at_end': ch.bool(0.4), 'tail': ch.choice([0, 0, 3, 16]),
             'decoy': ch.bytes(0, 9), 'addr': ch.word(cls) & ~3, 'p_vaddr': ch.word(cls), 'p_paddr': ch.word(cls),
             'p_memsz': ch.choice([0, 0, 1, ch.word(cls)]), 'stab_addr': ch.word(cls) & ~3,
-            'osabi': ch.choice([0, 0, 3, 9]), 'unaligned': ch.choice([0, 0, 0, 1, 2, 3])}
+            'osabi': ch.choice([0, 0, 3, 9]), 'unaligned': ch.choice([0, 0, 0, 1, 2, 3]),
+            'walign': ch.choice([None, None, None, 0, 1, 2, 8, 8, 16, 0x1000])}
 
 
 def gen_stabs(ch):
@@ -944,7 +951,8 @@ def sweep(tier):
                 rot = (namesz + ci + vi) % 10
                 notes = notes[rot:] + notes[:rot]
                 cases.append(_mk(cls, le, core, view, notes, lay={'gap4': namesz % 3, 'at_end': namesz % 2 == 0, 'tail': 0,
-                                                                  'p_vaddr': 0x77, 'p_memsz': namesz, 'addr': 0x400000 + 4 * namesz}))
+                                                                  'p_vaddr': 0x77, 'p_memsz': namesz, 'addr': 0x400000 + 4 * namesz,
+                                                                  'walign': (None, 8, 0, 16, 1)[namesz % 5]}))
             # every owner of the pool (empty, latin-1, long, near-misses of 'GNU') x a rotating type; a collision-free extent
             notes = []
             for k, name in enumerate(NAME_POOL + [bytes(range(1, 40)), bytes(range(0x80, 0xa7))]):
